@@ -30,7 +30,12 @@ type pass struct {
 
 // full is the vocabulary without FALSE and NULL (true stands for the keyword literals there); the
 // keywords pass combines all three with the symbols a keyword can stand next to.
-var full = without(vocab, "FALSE", "NULL")
+var full = without(without(vocab, "FALSE", "NULL"), longTokens...)
+
+// the long pass: every long atom with the symbols that can stand next to an atom. The 70 000
+// character literal takes a quarter of a second per expression and is left to the thorough tier.
+var longQuick = []string{"a", `"s"`, longText300, longText12k, longName, longNumber, "f(", "(", ")", "[", "]", ".", ",", "&", "=", " "}
+var longThorough = append(append([]string{}, longQuick...), longText70k)
 var keywords = []string{"a", "true", "FALSE", "NULL", "1", `"s"`, "f(", "(", ")", "[", "]", ".", ",", "&", "=", "-", " "}
 var core = []string{"a", "1", "-", "^", "*", "+", "<", "=", "&", "(", ")"}
 
@@ -56,12 +61,14 @@ func passes(tier string) []pass {
 			{"full", full, 6, 5, 4},
 			{"keywords", keywords, 6, 5, 0},
 			{"operators", core, 8, 0, 0},
+			{"long", longQuick, 4, 3, 3},
 		}
 	}
 	return []pass{
 		{"full", full, 7, 6, 5},
 		{"keywords", keywords, 7, 6, 0},
 		{"operators", core, 10, 0, 0},
+		{"long", longThorough, 5, 4, 3},
 	}
 }
 
@@ -84,8 +91,13 @@ func indexes(tokens []string) []int {
 
 type replay struct {
 	Tokens     []string `json:"tokens,omitempty"`
-	Expression string   `json:"expression"`
+	Expression string   `json:"expression,omitempty"`
 	Key        string   `json:"key,omitempty"`
+	// the migration family (migrate.go)
+	Family   string `json:"family,omitempty"`
+	Template string `json:"template,omitempty"`
+	Frame    string `json:"frame,omitempty"`
+	First    string `json:"first_lookup,omitempty"`
 }
 
 type runner struct {
@@ -129,7 +141,7 @@ func (r *runner) visit(toks []int, s string) {
 	vs, info := checkExpr(s, stages)
 	if d := time.Since(t0); d > 2*time.Second {
 		c.Inc("expressions_slower_than_2s")
-		c.Note(fmt.Sprintf("slow expression (%v): %s", d.Round(time.Second), s))
+		c.Note(fmt.Sprintf("slow expression (%v): %s", d.Round(time.Second), clip(s)))
 	}
 	c.Inc("distinct_nontrivial")
 	if stages&stageEval != 0 {
@@ -167,7 +179,12 @@ func (r *runner) visit(toks []int, s string) {
 		c.Inc("identifier_templates")
 	}
 	c.Outcome(strings.Join(info.classes[:], ","))
-	if c.WantSample() && len(toks) >= 5 && info.printed != s && info.hasRefA {
+	c.Add("renames_to_lookup_compared", int64(info.extRenames))
+	c.Add("renames_to_lookup_of_a_reference_followed_by_that_member", int64(info.extFollowed))
+	if info.longAtom {
+		c.Inc("expressions_with_a_long_atom")
+	}
+	if c.WantSample() && len(toks) >= 5 && info.printed != s && info.hasRefA && len(s) < 200 {
 		c.Sample(map[string]any{"tokens": tokStrings(toks), "expression": s, "printed": info.printed, "value_classes": info.classes})
 	}
 	for _, v := range vs {
@@ -194,7 +211,7 @@ func (r *runner) bruteCheck(order []int, L int) {
 			if depth == 1 && !c.Mine(cidx) {
 				continue
 			}
-			creach := reach && st != stDead && !(st == stTailBad && !merging(last)[y])
+			creach := reach && st != stDead && !(st == stTailBad && !merging(last).at(y))
 			ctoks := append(toks, y)
 			cs := s + vocab[y]
 			cst, clast := classify(cs)
@@ -261,10 +278,13 @@ func run(c *mc.Ctx) {
 			r.bruteCheck(order, p.bruteLen)
 		}
 	}
+	if !c.Expired() {
+		runMigration(c)
+	}
 	for i, n := range r.symHits {
 		if n > 0 {
-			c.Add("symbol:"+vocab[i], n)
-			c.Fact("symbol:" + vocab[i])
+			c.Add("symbol:"+symName(vocab[i]), n)
+			c.Fact("symbol:" + symName(vocab[i]))
 		}
 	}
 	for i, n := range r.nodeHits {
@@ -281,6 +301,14 @@ func replayFn(c *mc.Ctx, raw json.RawMessage) (string, bool) {
 		return "bad replay: " + err.Error(), false
 	}
 	var sb strings.Builder
+	if rp.Family == "migration" {
+		vs, rewritten, class := checkMigration(rp.Template, rp.Frame, rp.First)
+		fmt.Fprintf(&sb, "13.2 flow with the template %q\nMigrate13_3 makes it: %q (original evaluates: %s)\n", rp.Template, rewritten, class)
+		for _, v := range vs {
+			fmt.Fprintf(&sb, "PROBLEM %s: %s\n", v.key, v.what)
+		}
+		return sb.String(), len(vs) > 0
+	}
 	if rp.Key == "harness:pruning" {
 		st, _ := classify(rp.Expression)
 		return fmt.Sprintf("expression %q: parser status %d (0 = parses)", rp.Expression, st), st == stOK
@@ -302,8 +330,11 @@ func replayFn(c *mc.Ctx, raw json.RawMessage) (string, bool) {
 func guards(r *mc.Result, tier string) []string {
 	var f []string
 	for _, t := range vocab {
-		if r.Facts["symbol:"+t] == 0 {
-			f = append(f, "no parseable expression used the symbol "+t)
+		if t == longText70k && tier == "quick" {
+			continue
+		}
+		if r.Facts["symbol:"+symName(t)] == 0 {
+			f = append(f, "no parseable expression used the symbol "+symName(t))
 		}
 	}
 	for _, n := range nodeNames {
@@ -312,13 +343,18 @@ func guards(r *mc.Result, tier string) []string {
 		}
 	}
 	need := map[string]int64{
-		"distinct_nontrivial":                  100000,
-		"printed_form_differs_from_input":      1000,
-		"expressions_with_reference_to_rename": 1000,
-		"templates_scanned_as_one_expression":  100000,
-		"expressions_with_templates_evaluated": 5000,
-		"identifier_templates":                 10,
-		"unpruned_parseable":                   1000,
+		"distinct_nontrivial":                                      100000,
+		"printed_form_differs_from_input":                          1000,
+		"expressions_with_reference_to_rename":                     1000,
+		"templates_scanned_as_one_expression":                      100000,
+		"expressions_with_templates_evaluated":                     5000,
+		"identifier_templates":                                     10,
+		"unpruned_parseable":                                       1000,
+		"expressions_with_a_long_atom":                             500,
+		"renames_to_lookup_compared":                               2000,
+		"renames_to_lookup_of_a_reference_followed_by_that_member": 500,
+		"migration:templates":                                      1554,
+		"migration:templates_rewritten_and_with_a_value":           1000,
 	}
 	var names []string
 	for k := range need {
@@ -328,6 +364,16 @@ func guards(r *mc.Result, tier string) []string {
 	for _, k := range names {
 		if r.Counters[k] < need[k] {
 			f = append(f, fmt.Sprintf("counter %s = %d, expected at least %d", k, r.Counters[k], need[k]))
+		}
+	}
+	for _, l := range migLookups {
+		if r.Facts["migration:first-lookup="+l.kind] == 0 {
+			f = append(f, "no migrated template had a reference followed by "+l.kind)
+		}
+	}
+	for _, fr := range migFrames {
+		if r.Facts["migration:frame="+fr.name] == 0 {
+			f = append(f, "no migrated template had the frame "+fr.name)
 		}
 	}
 	// values, errors and functions must all have been produced
@@ -347,15 +393,19 @@ func init() {
 	mc.Register(&mc.Check{
 		ID:    "C11",
 		Level: "exploration",
-		Rule: "every sequence of vocabulary tokens up to 6 (quick) / 7 (thorough) tokens is concatenated and parsed by goflow's parser; the vocabulary has 27 symbols: names a/B, call f(, numbers 1 and 1.50, three string literals incl. escapes and non-ASCII, true, every operator (- + * / ^ & = != < >, with <= and >= formed by adjacent tokens), ( ) [ ] . , => and the space as a token of its own. A prefix is abandoned only if the first syntax error is at a token no continuation can re-tokenize (cross-checked against the unpruned enumeration up to 4/5 tokens). Two further passes take a 17-symbol vocabulary with all keyword literals true/FALSE/NULL to the same length and an 11-symbol operator/parenthesis vocabulary to 8/10 tokens. " +
-			"evaluations = token sequences given to the parser; distinct_nontrivial = distinct sequences that parse (each is a different string; `=`+`>` is skipped as it equals the token `=>`; a sequence belonging to an earlier pass is not counted again), each run through: print, re-parse, print again, evaluation of both trees in 3 environments x 4 contexts binding a,b,f (object, array, number, text; function f), refactor.Template with a forced identity rewrite and with ContextRefRename(a->z) on `x @(e) y` compared by references, structure and evaluation under the renamed context; for the shorter lengths also Evaluator.Template on original vs rewritten `x @(e) y`, `@(e)@(e)` and `hi @e y`.",
+		Rule: "every sequence of vocabulary tokens up to 6 (quick) / 7 (thorough) tokens is concatenated and parsed by goflow's parser; the vocabulary has 27 symbols: names a/B, call f(, numbers 1 and 1.50, three string literals incl. escapes and non-ASCII, true, every operator (- + * / ^ & = != < >, with <= and >= formed by adjacent tokens), ( ) [ ] . , => and the space as a token of its own. A prefix is abandoned only if the first syntax error is at a token no continuation can re-tokenize (cross-checked against the unpruned enumeration up to 4/5 tokens). Two further passes take a 17-symbol vocabulary with all keyword literals true/FALSE/NULL to the same length and an 11-symbol operator/parenthesis vocabulary to 8/10 tokens. A fourth pass (long) takes atoms longer than any limit a printer could plausibly apply - text literals of 300 and 12 000 characters (thorough: also 70 000) made of position counters, a name of 301 characters (bound in every context) and a number of 40+40 digits - with a, \"s\", f( ( ) [ ] . , & = and the space to 4/5 tokens. " +
+			"evaluations = token sequences given to the parser; distinct_nontrivial = distinct sequences that parse (each is a different string; `=`+`>` is skipped as it equals the token `=>`; a sequence belonging to an earlier pass is not counted again), each run through: print, re-parse, print again, evaluation of both trees in 3 environments x 4 contexts binding a,b,f (object, array, number, text; function f), refactor.Template with a forced identity rewrite and with ContextRefRename(a->z) on `x @(e) y` compared by references, structure and evaluation under the renamed context; for the shorter lengths also Evaluator.Template on original vs rewritten `x @(e) y`, `@(e)@(e)` and `hi @e y`. " +
+			"The rename family also has the shape the 13.3 migration uses, new name = old name plus a lookup: ContextRefRename(a->a.a) and (a->a.b) on every expression with a free reference to a - the vocabulary forms a.a, a.B, a.a.a .. so references already followed by a genuine member of that name are enumerated - compared with a reference model (every free a becomes the lookup, whatever follows it) by references with the number of such lookups behind each, structure, and evaluation under the context in which a's value is bound to a.a / a.b (in `x @(e) y`, and for the shorter lengths by Evaluator.Template in all three frames). " +
+			"A last family runs the real Migrate13_3 on a 13.2 flow: webhook / WebHook followed by every chain of 0..3 lookups over .json .JSON .id .0 [\"json\"] [\"id\"], in 3 template frames (identifier, expression, expression with a second reference plus an identifier) = 1554 templates, each put in 5 places of the flow (action text, list item, translation, router operand, case argument); the migrated template with the response body bound to webhook.json must evaluate to what the original does with the body bound to webhook (the body nests json/id/0 four levels deep with a different text at every leaf), and all places must agree.",
 		Assumptions: []string{
 			"bounded: token vocabulary and sequence length as stated in the rule; contexts are the 4 stated shapes",
 			"'fails alike' is read as: both evaluations fail (messages are not compared, differing messages are counted)",
 			"values are compared by dynamic type, Render, Format and JSON; anonymous functions by calling them with 0..3 arguments",
 			"an expression containing both `^` and a number literal >= 100 or of more than 3 digits (111, 1111, 1.501.. formed by adjacent tokens) is printed, re-parsed and its rewrites are compared structurally, but it is not evaluated: powers like x ^ 1111111 or 111 ^ 111 ^ 1.50 take minutes and gigabytes (C04's subject); the evidence counts them and any expression that took more than 2 s",
 			"a template that the scanner does not cut at the expression (string literal ending in an escaped backslash) is text for goflow: its rewrite is compared by evaluation only; the scanner itself is C12's subject",
-			"Evaluator.Template comparisons run on lengths <= 5 (quick) / <= 6 (thorough) of the 27- and 17-symbol vocabularies; longer sequences are checked at expression level and through refactor.Template structurally",
+			"Evaluator.Template comparisons run on lengths <= 5 (quick) / <= 6 (thorough) of the 27- and 17-symbol vocabularies and <= 3 / <= 4 of the long pass; longer sequences are checked at expression level and through refactor.Template structurally",
+			"the renames a->a.a and a->a.b are evaluated in the default environment only (the 4 contexts): number and date formats play no part in renaming; a->z stays on 3 environments",
+			"the migration family judges by evaluation only: a template whose expression does not parse (webhook.0.0 is read as a decimal) is left alone by the migration and fails alike before and after",
 		},
 		Run:    run,
 		Replay: replayFn,
